@@ -79,6 +79,86 @@ theorem encodable_encShape (v : PV) (h : Encodable v = true) : EncShape v = true
   obtain ⟨j, h1, _⟩ := Serialize.roundtrip v h
   rw [← Serialize.encode_isOk, h1]; rfl
 
+/-! ### Floats: the whole value domain, non-finite values included (seed C11-f)
+
+`PV.flt` ranges over `Flt` = finite dyadics, `-0.0`, `nan`, `inf`, `-inf`; `json.dumps` is modelled with the `allow_nan`
+argument the call in `state_to_json` really passes (`Generated.C11.dumpsAllowNan`, read off the source on every run).
+`roundtrip_tree`, `roundtrip_lossy`, `encode_total_iff`, `encodable_encShape` above are statements over this extended
+universe (every `Flt` is `Encodable`); they re-prove only while `json.dumps` accepts every float. -/
+
+/-- every float can be saved — `nan`, `inf`, `-inf`, `-0.0` included — and comes back as the same float -/
+theorem every_float_roundtrips (f : Flt) : (encode (.flt f) >>= decode) = .ok (.flt f) :=
+  roundtrip_tree (.flt f) (by simp [Encodable])
+
+/-- … wherever it sits: a value whose only leaves are floats of any kind is saved and restored unchanged
+    (instance of `roundtrip_tree`; stated for the shapes a flow context has: variable ↦ float / list / set / dict of floats) -/
+theorem nonfinite_in_context_roundtrips (fs : List Flt) (k : String) :
+    (encode (.dict [(.str k, .list (fs.map .flt)), (.str "s", .set (fs.map .flt)), (.int 1, .tuple (fs.map .flt))]) >>= decode)
+      = .ok (.dict [(.str k, .list (fs.map .flt)), (.str "s", .set (fs.map .flt)), (.int 1, .tuple (fs.map .flt))]) := by
+  have hl : EncodableList (fs.map PV.flt) = true := by
+    induction fs with
+    | nil => simp [EncodableList]
+    | cons f fs ih => simp [EncodableList, Encodable, ih]
+  exact roundtrip_tree _ (by simp [Encodable, EncodableVals, hl])
+
+/-- the encoder never rejects a value because of a float in it: `EncShape` does not depend on which floats occur
+    (kernel-checked for the generated `allow_nan`) -/
+theorem encShape_float (f : Flt) : EncShape (.flt f) = true := by
+  simp [EncShape, NemoVerif.Generated.C11.dumpsAllowNan]
+
+/-- what `allow_nan=False` would do (the model follows the source through the generated constant): a non-finite float
+    anywhere makes `state_to_json` raise `ValueError`.  Stated for an arbitrary value of the constant so that it
+    is a theorem on every tree. -/
+theorem strict_json_counterexample (h : NemoVerif.Generated.C11.dumpsAllowNan = false) (neg : Bool) :
+    encode (.data "FlowState" [(.str "context", .dict [(.str "limit", .flt (.inf neg))])]) = .error .valueError
+    ∧ encode (.list [.flt .nan]) = .error .valueError := by
+  simp [encode, encodeKvs, encodeVals, encodeList, allStr, Key.isStr, dumpFlt, Flt.isFinite, h, bind, Except.bind]
+
+/-- text layer: the three non-standard tokens CPython writes for the non-finite floats are read back as the same float,
+    they are pairwise different, and finite floats (incl. `-0.0`) never use them -/
+theorem nonfinite_tokens_roundtrip (f : Flt) :
+    (f.isFinite = false → (nonFiniteToken f).bind parseConstant = some f)
+    ∧ (f.isFinite = true → nonFiniteToken f = none) := by
+  cases f with
+  | inf neg => cases neg <;> simp [Flt.isFinite, nonFiniteToken, parseConstant]
+  | _ => simp [Flt.isFinite, nonFiniteToken, parseConstant]
+
+theorem nonfinite_tokens_injective (f g : Flt) (t : String) (hf : nonFiniteToken f = some t) (hg : nonFiniteToken g = some t) : f = g := by
+  have h1 := (nonfinite_tokens_roundtrip f).1
+  have h2 := (nonfinite_tokens_roundtrip g).1
+  cases hfin : f.isFinite
+  · cases hgin : g.isFinite
+    · have a := h1 hfin; have b := h2 hgin
+      rw [hf] at a; rw [hg] at b
+      simp only [Option.bind_some] at a b
+      rw [a] at b; injection b
+    · have := (nonfinite_tokens_roundtrip g).2 hgin; rw [this] at hg; cases hg
+  · have := (nonfinite_tokens_roundtrip f).2 hfin; rw [this] at hf; cases hf
+
+example : (nonFiniteToken (.inf true)).bind parseConstant = some (.inf true) := (nonfinite_tokens_roundtrip _).1 rfl
+
+/-- the five kinds of float are pairwise different values of the model (so "comes back unchanged" distinguishes
+    `-0.0` from `0.0` and `inf` from `-inf`) -/
+example : (Flt.fin 0 0 ≠ .negZero) ∧ (Flt.inf true ≠ .inf false) ∧ (Flt.nan ≠ .inf false) := by decide
+
+example : (encode (.set [.flt .nan, .flt (.inf true), .flt .negZero, .flt (.fin 1 1)]) >>= decode)
+    = .ok (.set [.flt .nan, .flt (.inf true), .flt .negZero, .flt (.fin 1 1)]) :=
+  roundtrip_tree _ (by simp [Encodable, EncodableList])
+
+/-! ### Finding `state-holds-unserialisable-builtin` (open): values of built-in types without an encoder branch
+
+A Colang expression can produce — and a flow variable keep — a `bytes` (`"abc".encode()`), a dict view (`$d.keys()`) or a bound
+built-in method (`$l.append`); `encode_to_dict` has no branch for them (`PV.other cls`).  Full statement that is FALSE of the code:
+`∀ v reachable, (encode v).isOk`.  Proved instead: the counterexample, and `encode_total_iff` (the encoder succeeds exactly on
+`EncShape`, which excludes exactly the values containing an `.other`). -/
+theorem unserialisable_builtin_as_is_counterexample (cls : String) (uid : String) :
+    encode (.data "FlowState" [(.str "uid", .str uid), (.str "context", .dict [(.str "keys", .other cls)])])
+      = .error (.unhandledType cls)
+    ∧ EncShape (.data "FlowState" [(.str "uid", .str uid), (.str "context", .dict [(.str "keys", .other cls)])]) = false := by
+  constructor
+  · simp [encode, encodeKvs, encodeVals, allStr, Key.isStr, keyStr, bind, Except.bind]
+  · simp [EncShape, EncShapeKvs, EncShapeVals]
+
 /-- What a save/restore returns in general — on every value the encoder accepts and whose classes the
     decoder knows (`Decodable`): the value with `functools.partial` dropped and dataclass/RailsConfig
     field names stringified (`norm`).  This makes the lossy region of the round trip explicit:
